@@ -28,6 +28,7 @@ class TimerMonitor:
         self.first_seen = {}   # oid -> vtime
         self.last_accept = {}  # oid -> vtime of the last authentic datagram processed by that IKE_SA
         self.established_at = {}
+        self.reached = set()   # (spi_i, spi_r, mid) of requests that were delivered to an endpoint while it held the IKE_SA they belong to
 
     def on_step(self, sim, ep, rec):
         ck = self.ck
@@ -43,6 +44,12 @@ class TimerMonitor:
         before = {s['oid']: s for s in rec.before}
         after = {s['oid']: s for s in rec.after}
         ck.count('tm.steps')
+        if rec.kind == 'udp' and rec.input is not None:
+            h0 = _hdr(rec.input[2])
+            if h0 is not None and not h0['flags'] & 0x20:
+                want0 = h0['spi_r'] if h0['flags'] & 0x08 else h0['spi_i']
+                if any(b_['my_spi'] == want0 for b_ in rec.before):
+                    self.reached.add((h0['spi_i'], h0['spi_r'], h0['mid']))
         # ---- authentic datagram accepted: liveness evidence, and responses end retransmission
         if rec.kind == 'udp' and rec.input is not None and rec.routed:
             oid = rec.routed[0][0]
@@ -127,7 +134,9 @@ class TimerMonitor:
                         holders = [(e.name, x.state.name) for e in sim.eps.values() if e is not ep for x in e.ctl.ike_sas
                                    if (bytes(x.spi_i), bytes(x.spi_r)) == pair and x.state.name not in ('DELETED', 'REKEYED', 'DEL_AFTER_REKEY_IKE_SA_REQ_SENT', 'DEL_IKE_SA_REQ_SENT')]
                         ck.count('tm.gave_up_in_a_lossless_run')
-                        if holders:
+                        # ... and at least one copy of the request arrived while the peer held that IKE_SA (copies that came before the peer had created
+                        # it, e.g. ahead of a delayed rekey response, are legitimately ignored)
+                        if holders and pair is not None and (pair[0], pair[1], b['my_msg_id']) in self.reached:
                             ck.violation(f'request-never-answered-although-nothing-was-lost-and-the-peer-still-holds-the-ike-sa:{b["state"]}',
                                          {'peer': holders, 'transmissions': len(r['times']), 'trace': sim.trace[-10:]}, case)
         # ---- DPD
